@@ -55,9 +55,10 @@ VARIABLES head, lo,           \* store
           ch, q, wk, item,    \* per registration: channel state, queue, worker state, item in hand
           pc, from, cur, snap, pos, sent, phase, cons, ctxd, err, why,
           nfault,
-          due                 \* history: rounds put into the queue of each stream's registration (see DueUpdate)
+          due,                \* history: rounds put into the queue of each stream's registration (see DueUpdate)
+          dispd               \* history: rounds whose Put reached the dispatch (took the read lock)
 
-vars == <<head, lo, wr, lockW, cbs, ch, q, wk, item, pc, from, cur, snap, pos, sent, phase, cons, ctxd, err, why, nfault, due>>
+vars == <<head, lo, wr, lockW, cbs, ch, q, wk, item, pc, from, cur, snap, pos, sent, phase, cons, ctxd, err, why, nfault, due, dispd>>
 
 AddrOf(s) == IF SameAddr THEN 1 ELSE s
 Addrs == {AddrOf(s) : s \in Streams}
@@ -131,6 +132,7 @@ Init ==
   /\ why = [s \in Streams |-> "none"]
   /\ nfault = 0
   /\ due = [s \in Streams |-> {}]
+  /\ dispd = {}
 
 \* gRPC cancels the stream context when the handler returns
 CtxDone(s) == ctxd[s] \/ pc[s] = "ended"
@@ -317,7 +319,7 @@ LiveEnd(s) ==
 (* Environment: the remote consumer                                          *)
 Active(s) == pc[s] \notin {"init", "ended"}
 Fault(s, k) ==
-  /\ k \in Faults \ {"resume"} /\ nfault < MaxFaults /\ Active(s) /\ cons[s] = "reading" /\ ~ctxd[s]
+  /\ k \in Faults \ {"resume", "wcancel"} /\ nfault < MaxFaults /\ Active(s) /\ cons[s] = "reading" /\ ~ctxd[s]
   /\ nfault' = nfault + 1
   /\ IF k = "cancel" THEN ctxd' = [ctxd EXCEPT ![s] = TRUE] /\ cons' = cons
      ELSE cons' = [cons EXCEPT ![s] = IF k = "stall" THEN "stalled" ELSE "disc"] /\ ctxd' = ctxd
@@ -329,17 +331,32 @@ Resume(s) ==
   /\ cons' = [cons EXCEPT ![s] = "reading"]
   /\ UNCHANGED <<head, lo, wr, lockW, cbs, ch, q, wk, item, pc, from, cur, snap, pos, sent, phase, ctxd, err, why, nfault>>
 
+(* The context handed to Put may be cancelled at any time (the sync manager cancels / restarts a      *)
+(* running sync).  As coded: the base store refuses a Put whose context is already done (bolt checks    *)
+(* ctx first, memdb does not), and AFTER the write the context is never consulted again - a stored      *)
+(* beacon is dispatched to every registered callback, and a Put parked on a full queue stays parked.    *)
+(* So cancelling the writer's context is a no-op of the design once the write happened:                 *)
+WCancel(w) ==
+  /\ "wcancel" \in Faults /\ wr[w].pc \in {"stored", "dispatch"}
+  /\ UNCHANGED vars
+\* ... and before the write the Put returns ctx.Err() and nothing is stored
+PutAborted(w) ==
+  /\ "wcancel" \in Faults /\ wr[w].pc = "idle" /\ Backend = "bolt"
+  /\ UNCHANGED vars
+
 WriterNext == \E w \in Writers : Store(w) \/ StoreWait(w) \/ RLock(w) \/ DispatchDone(w) \/ \E s \in Streams : DispatchSend(w, s)
 WorkerNext == \E s \in Streams : WorkTake(s) \/ WorkCall(s) \/ WorkExit(s)
 StreamNext == \E s \in Streams : (\E f \in Froms : Open(s, f)) \/ ScanBegin(s) \/ ScanSend(s) \/ Register(s)
                                   \/ RegisterUnblock(s) \/ LiveEnd(s)
-EnvNext == \E s \in Streams : Resume(s) \/ \E k \in Faults \ {"resume"} : Fault(s, k)
+EnvNext == \/ \E s \in Streams : Resume(s) \/ \E k \in Faults \ {"resume", "wcancel"} : Fault(s, k)
+           \/ \E w \in Writers : WCancel(w) \/ PutAborted(w)
 SysNext == WriterNext \/ WorkerNext \/ StreamNext
 \* bookkeeping of the history variable, conjoined to every step: a queue grows by at most one item
 \* per step (a dispatched round, or the close pair)
 DueUpdate == due' = [s \in Streams |->
                        IF Len(q'[s]) > Len(q[s]) /\ q'[s][Len(q'[s])] # CLOSE THEN due[s] \cup {q'[s][Len(q'[s])]}
                        ELSE due[s]]
+             /\ dispd' = dispd \cup {wr[w].r : w \in {v \in Writers : wr[v].pc = "stored" /\ wr'[v].pc = "dispatch"}}
 Next == (SysNext \/ EnvNext) /\ DueUpdate
 Spec == Init /\ [][Next]_vars
 
@@ -354,6 +371,9 @@ Mon_NoGap     == \A s \in Streams : NoGapL(sent[s], lo)
 Mon_ScanNoGap == \A s \in Streams : \A i \in DOMAIN sent[s] :
                    (i > 1 /\ phase[s][i] = "scan") => \A m \in (sent[s][i - 1] + 1)..(sent[s][i] - 1) : m < lo
 Mon_FromStart == \A s \in Streams : FromStart(sent[s], from[s])
+\* every beacon in the store has been, or is being, dispatched to the callbacks registered at that time
+Mon_StoredDispatched == \A r \in (InitHead + 1)..head :
+                          r \in dispd \/ \E w \in Writers : wr[w].r = r /\ wr[w].pc = "stored"
 Mon_C11 == Mon_NoRepeat /\ Mon_InOrder /\ Mon_NoGap /\ Mon_FromStart
 
 Healthy(s) == cons[s] = "reading" /\ ~ctxd[s]
